@@ -3,7 +3,8 @@
 DOCS = [
     '[1,{"a":2}]', '{"a":{"b":[]},"c":1} 2', '[1,]', '{"a":1,"a":2}', '[[1] ', ' "x" true', '[1 2]',
     '{"a" 1}', '[tru]', '12', '{"a":[1,"\\u00e9"]}', '["\\ud83d\\ude00",-1.5e+3]', '{"":[]}',
-    '[[[[0]]]]', 'nul', '[1,2', '{"a":1}x', '"\xc3\xa9"', '{"a":"\\ud800"}', '[-0.0e0,0]', '{"~/":{"0":[[]]}}', '{[a', '{"a":1,-x', '[{"b":1]', '{"a":{"b":1]',
+    '[[[[0]]]]', 'nul', '[1,2', '{"a":1}x', '"\xc3\xa9"', '{"a":"\\ud800"}', '[-0.0e0,0]', '{"~/":{"0":[[]]}}', '{[a', '{"a":1,-x', '0123', '[1,00]', '-012 ', '{"a":07}', '"\\uD83D\\uDE00"', '["\\udbff\\uDFFF"]',
+    '[tr]', '[nulL]', '"\\u00"', '"ab\\', '[1.0E-2,2e+1]', '1e5 2', '[0e1,0.5]', '"\\ud800\\u0041"', '{"\\u0061":1,"a":2}', '[{"b":1]', '{"a":{"b":1]',
 ]
 
 
